@@ -67,7 +67,7 @@ SPEC = dict(
         technique='Coq proof on a hand model + generated tables (vm_compute lifted by forallb) + exhaustive field correspondence + monitor',
         design_ref='DESIGN.md section 5 (C11)'),
     stages=[SP.stage_tables, SP.stage_fields, stage_monitor],
-    theorems=['C11_decoding_total', 'C11_tables_total', 'C11_exceptions_are_exactly', 'C11_every_sensor_reported', 'C11_day_of_week_total', 'C11_months_total'],
+    theorems=['C11_map_response_is_the_model', 'C11_decoding_total', 'C11_tables_total', 'C11_exceptions_are_exactly', 'C11_every_sensor_reported', 'C11_day_of_week_total', 'C11_months_total'],
     rule='field sweeps: (sensor class, field) x 256-value chunks of the 16-bit range (all chunks in thorough); table blocks: boundary, '
          'sentinel, random and truncated blocks per table; monitor: register files filled with sentinels / random words per family',
     trusted_base=SP.TB_SENS,
